@@ -270,8 +270,136 @@ def correspond_pqname(ctx, corr):
                                            what="qualified name `%s`: model %s, implementation %s" % (' '.join(toks), m, r)))
 
 
+# ---------------------------------------------------------------------------
+# template argument lists: extracted tspec (Parse/TemplateArg.v) vs the real _parse_template_specialization
+
+def real_tspec(strs):
+    toks = [impl.mk_tok(decl.tok_type(s), s) for s in strs]
+    p = impl.parser_over(toks)
+    try:
+        sp = p._parse_template_specialization()
+    except (impl.CxxParseError, EOFError):
+        return ('err',)
+    except (AssertionError, IndexError):
+        return ('assert',)
+    except (KeyError, AttributeError, TypeError, ValueError):
+        return ('other',)
+    out = []
+    for a in sp.args:
+        if isinstance(a.arg, T.Value):
+            out.append(('value', tuple(t.value for t in a.arg.tokens), a.param_pack))
+        else:
+            try:
+                out.append(('type', decl.from_real(a.arg), a.param_pack))
+            except decl.Unrepresentable:
+                return ('other',)
+    return ('ok', out, len(p.lex.tokbuf))
+
+
+def model_tspec(cases):
+    lines, nms = [], []
+    for toks in cases:
+        names = decl.Names()
+        lines.append([101] + decl.enc_tokens(toks, names))
+        nms.append(names)
+    res = []
+    for o, names in zip(run_driver(lines), nms):
+        if o[0] != 0:
+            res.append(('err', o[1]))
+            continue
+        rest, cnt = o[1], o[2]
+        i = 3
+        out = []
+        for _ in range(cnt):
+            if o[i] == 1:
+                t, j = decl.dec_type(o, i + 2, names)
+                out.append(('type', t, bool(o[i + 1])))
+                i = j
+            else:
+                n = o[i + 2]
+                vals = tuple(names.rev[o[i + 3 + 2 * j + 1]] if o[i + 3 + 2 * j + 1] else impl.TT[o[i + 3 + 2 * j]] for j in range(n))
+                out.append(('value', vals, bool(o[i + 1])))
+                i += 3 + 2 * n
+        res.append(('ok', out, rest))
+    return res
+
+
+TS_VALUES = [['3'], ['N', '+', '1'], ['(', 'a', '<', 'b', ')'], ['-', '1'], ['true'], ["'c'"], ['sizeof', '(', 'Foo', ')'], ['&', 'x'], ['nullptr'],
+             ['1', '<<', '2'], ['(', 'a', ',', 'b', ')'], ['Foo', '(', '3', ')'], ['Foo', '[', '2', ']', '+', '1'], ['a', '?', 'b', ':', 'c']]
+TS_WORDS = ['Foo', 'Bar', 'T', 'void', 'const', 'volatile', '*', '&', '&&', '(', ')', '[', ']', ',', '>', '...', '3', 'x', 'sizeof', '<', '::', 'int',
+            'static', 'typename', 'struct', '=', '->']
+
+
+def tspec_msg(m, r):
+    if r[0] == 'other' or m == ('err', 4):
+        return None
+    if m[0] == 'err' and m[1] == 9:
+        return "model ran out of budget"
+    if m[0] == 'err' and m[1] == 3:
+        # an assertion of the implementation, or an explicit CxxParseError inside the type trial (the model's code 3 covers both)
+        return None if r[0] in ('assert', 'err', 'ok') else "model code 3, implementation %s" % (r[:1],)
+    if m[0] == 'err':
+        return None if r[0] in ('err', 'assert') else "model rejects (code %d), implementation %s" % (m[1], r)
+    if r[0] != 'ok':
+        return "model %s, implementation %s" % (m, r[:1])
+    if m != r:
+        return "model %s, implementation %s" % (m, r)
+    return None
+
+
+def gen_tspec(rng):
+    """(tokens after '<', expected list or None)"""
+    n = rng.choice([1, 1, 2, 3, 4])
+    toks, exp = [], []
+    for i in range(n):
+        if i:
+            toks.append(',')
+        r = rng.random()
+        if r < 0.6:
+            while True:
+                t = decl.rand_type(rng, rng.choice([0, 1, 2, 3, 4]))
+                if decl.legal(t) and not decl.is_void(t):
+                    break
+            pack = rng.random() < 0.15
+            toks += decl.print_decl(t, None) + (['...'] if pack else [])
+            exp.append(('type', t, pack))
+        else:
+            v = rng.choice(TS_VALUES)
+            pack = rng.random() < 0.1
+            toks += v + (['...'] if pack else [])
+            exp.append(('value', tuple(v), pack))
+    toks += ['>'] + rng.choice([[], ['x', ';'], ['::', 'type'], ['>']])
+    return toks, exp
+
+
+def correspond_tspec(ctx, corr):
+    rng = ctx.rng
+    cases = []
+    for _ in range(ctx.scale(900, 20000)):
+        toks, exp = gen_tspec(rng)
+        cases.append((toks, exp, 'targs-valid'))
+        if rng.random() < 0.6:
+            mt = mutate(rng, toks) or ['>']
+            if rng.random() < 0.3:
+                mt = [rng.choice(TS_WORDS) for _ in range(rng.choice([1, 2, 3, 5, 8]))]
+            cases.append((mt, None, 'targs-mutated'))
+    ms = model_tspec([c[0] for c in cases])
+    for (toks, exp, kind), m in zip(cases, ms):
+        corr.cases += 1
+        r = real_tspec(toks)
+        k = kind + ":" + (m[0] if m[0] == 'ok' else 'err%d' % m[1]) + "/" + r[0]
+        corr.dist[k] = corr.dist.get(k, 0) + 1
+        msg = tspec_msg(m, r)
+        if msg is None and exp is not None and (m[0] != 'ok' or m[1] != exp):
+            msg = "model does not decode the printed argument list: %s" % (m,)
+        if msg:
+            corr.disagreements.append(dict(case=dict(kind='corr-tspec', tokens=toks), model=str(m)[:300], impl=str(r)[:300],
+                                           what="template arguments `< %s`: %s" % (' '.join(toks), msg)))
+
+
 def correspond(ctx):
     corr = Corr()
+    correspond_tspec(ctx, corr)
     correspond_pqname(ctx, corr)
     correspond_alias(ctx, corr)
     cases = corr_cases(ctx)
@@ -659,6 +787,9 @@ def search(ctx, boost=False):
 
 def replay(ctx, case):
     k = case.get("kind")
+    if k == 'corr-tspec':
+        msg = tspec_msg(model_tspec([case["tokens"]])[0], real_tspec(case["tokens"]))
+        return ["template argument list: " + msg] if msg else []
     if k == 'corr-alias':
         names = decl.Names()
         o = run_driver([[86] + decl.enc_tokens(case["tokens"], names)])[0]
